@@ -207,10 +207,14 @@ def check_state(gf, m, after):
         bad("col-widths", "column widths %r, expected %r" % (colw, m.colw))
     if m.rowh is not None and rowh != m.rowh:
         bad("row-heights", "row heights %r, expected %r" % (rowh, m.rowh))
-    if sum(colw) != fw:
-        bad("frame-width", "frame width %d != sum of column widths %d %r" % (fw, sum(colw), colw))
-    if sum(rowh) != fh:
-        bad("frame-height", "frame height %d != sum of row heights %d %r" % (fh, sum(rowh), rowh))
+    exp_fw = sum(colw) if getattr(m, "frame_w", None) is None else m.frame_w
+    exp_fh = sum(rowh) if getattr(m, "frame_h", None) is None else m.frame_h
+    if exp_fw != fw:
+        bad("frame-width", "frame width %d, expected %d (%s; column widths %r)"
+            % (fw, exp_fw, "the sum of the column widths" if m.frame_w is None else "as assigned to the frame", colw))
+    if exp_fh != fh:
+        bad("frame-height", "frame height %d, expected %d (%s; row heights %r)"
+            % (fh, exp_fh, "the sum of the row heights" if m.frame_h is None else "as assigned to the frame", rowh))
 
     # -- merge flags and text
     for i in range(m.r):
@@ -399,6 +403,22 @@ def apply_op(env, gfs, models, op, kinds):
         kinds.append(cls)
         check_state(gfs[t], m, kind)
         return
+    if kind == "frame":
+        from pptx.util import Emu
+
+        _, t, which, v = op
+        with sut("C14:size:frame"):
+            if which:
+                gfs[t].width = Emu(v)
+            else:
+                gfs[t].height = Emu(v)
+        if which:
+            models[t].frame_w = v
+        else:
+            models[t].frame_h = v
+        kinds.append("frame-size")
+        check_state(gfs[t], models[t], "frame-size")
+        return
     if kind == "rowh":
         from pptx.util import Emu
 
@@ -406,6 +426,7 @@ def apply_op(env, gfs, models, op, kinds):
         with sut("C14:size:row-height"):
             _tbl(env, gfs, t).rows[i].height = Emu(v)
         models[t].rowh[i] = v
+        models[t].frame_h = None
         kinds.append("row-height")
         check_state(gfs[t], models[t], "row-height")
         return
@@ -414,6 +435,7 @@ def apply_op(env, gfs, models, op, kinds):
         with sut("C14:size:col-width"):
             _tbl(env, gfs, t).columns[j].width = v
         models[t].colw[j] = v
+        models[t].frame_w = None
         kinds.append("col-width")
         check_state(gfs[t], models[t], "col-width")
         return
